@@ -136,7 +136,7 @@ fn check_reg(upper: bool, digits: &str) -> Option<(String, String)> {
 
 fn magnitudes(ctx: &Ctx) -> Vec<u128> {
     let mut v: Vec<u128> = vec![];
-    if ctx.thorough() { v.extend(0..=140000u128); }
+    if ctx.thorough() { v.extend(0..=300000u128); }
     else {
         for b in [0u128, 15, 16, 31, 32, 255, 256, 1023, 1024, 32767, 32768, 65535, 65536, 70000, 140000] {
             for d in 0..=300u128 { v.push(b + d); if b >= d { v.push(b - d); } }
@@ -150,7 +150,7 @@ fn magnitudes(ctx: &Ctx) -> Vec<u128> {
 }
 
 pub fn run(ctx: &Ctx) -> Report {
-    let mut rep = Report::new("every magnitude in the window (thorough: 0..=140000, i.e. values -70000..=140000; quick: +-300 around every boundary) plus 10^k+-1 (k<=38), 2^k+-1 (k<=126) and 40-digit literals x notation {n,#n,xH,XH} x sign x 0-3 leading zeros x 10 contexts; registers R/r x 0..999 x 0-12 leading zeros; non-trivial = magnitude within 1 of a field or token boundary");
+    let mut rep = Report::new("every magnitude in the window (thorough: 0..=300000, i.e. values -150000..=300000; quick: +-300 around every boundary) plus 10^k+-1 (k<=38), 2^k+-1 (k<=126) and 40-digit literals x notation {n,#n,xH,XH} x sign x 0-3 leading zeros x 10 contexts; registers R/r x 0..999 x 0-12 leading zeros; non-trivial = magnitude within 1 of a field or token boundary");
     let mags = magnitudes(ctx);
     let bounds: Vec<u128> = { let mut b = vec![0u128]; for n in 1..=16 { b.push(1 << n); b.push(1 << (n - 1)); } b };
     let n = mags.len() as u64;
@@ -159,7 +159,7 @@ pub fn run(ctx: &Ctx) -> Report {
         let dec = m.to_string(); let hexs = format!("{m:x}");
         let near = bounds.iter().any(|b| (*b as i128 - m as i128).abs() <= 1);
         for neg in [false, true] {
-            if neg && m > 70000 && m < (1u128 << 17) { continue; }
+            if neg && m > 150000 && m < (1u128 << 19) { continue; }
             for form in FORMS { for zeros in 0..4usize { for cx in CXS {
                 acc.evals += 1; acc.transitions += 1;
                 if near { acc.nontrivial += 1; }
@@ -186,7 +186,7 @@ pub fn run(ctx: &Ctx) -> Report {
         if let Some((sig, d)) = check_reg(upper, &digits) { acc.violation(sig, format!("r:{}:{digits}", upper as u8), d); }
     });
     rep.absorb(r);
-    rep.bound("magnitudes", Json::i(n)); rep.bound("window", Json::s(if ctx.thorough() { "0..=140000 complete" } else { "+-300 around boundaries" }));
+    rep.bound("magnitudes", Json::i(n)); rep.bound("window", Json::s(if ctx.thorough() { "0..=300000 complete" } else { "+-300 around boundaries" }));
     rep.require(rep.acc.outcomes.len() >= 30, "acceptance and rejection seen in every context");
     rep
 }
